@@ -145,7 +145,7 @@ def replay(path: str) -> int:
         if not case:
             continue
         o = drive_case(case)
-        chk = Check("C09", "quick", 0, "exploration")
+        chk = Check("C09", "quick", 0, "exploration", fresh=False)
         v = chk.judge("Judge_C09", [o], nshards=1)
         chk.cleanup()
         print(json.dumps(v))
